@@ -995,3 +995,170 @@ func mergeGoals(a, b string) string {
 	sort.Strings(out)
 	return strings.Join(out, ",")
 }
+
+// errSentinels: the package-level error values that can reach error result of fn (through its
+// own returns, %w wrapping, and the error results of statically resolved module callees).
+// Anything else is reported as "?<shape>".
+func (c *Ctx) errSentinels(fn *ssa.Function, depth int, seen map[*ssa.Function]bool) map[string]bool {
+	out := map[string]bool{}
+	if fn == nil || len(fn.Blocks) == 0 || depth > 5 || seen[fn] {
+		return out
+	}
+	seen[fn] = true
+	var addVal func(v ssa.Value, d int)
+	addVal = func(v ssa.Value, d int) {
+		if d > 6 {
+			out["?deep"] = true
+			return
+		}
+		for _, l := range c.Origins(v, 0) {
+			switch x := l.(type) {
+			case *ssa.Const:
+				// nil
+			case *ssa.UnOp:
+				if g, ok := x.X.(*ssa.Global); ok && x.Op == token.MUL {
+					out[g.Name()] = true
+					continue
+				}
+				out["?"+shapeOf(l, 0)] = true
+			case *ssa.Call, *ssa.Extract:
+				call, _ := callOfResult(l)
+				if call == nil {
+					out["?"+shapeOf(l, 0)] = true
+					continue
+				}
+				name := calleeName(&call.Call)
+				if name == "fmt.Errorf" {
+					// wrapped operands
+					for _, a := range call.Call.Args[1:] {
+						if sl, ok := a.(*ssa.Slice); ok {
+							if al, ok := sl.X.(*ssa.Alloc); ok {
+								for _, ref := range *al.Referrers() {
+									if ia, ok := ref.(*ssa.IndexAddr); ok {
+										for _, r2 := range *ia.Referrers() {
+											if st, ok := r2.(*ssa.Store); ok {
+												ev := st.Val
+												if mi, ok := ev.(*ssa.MakeInterface); ok {
+													ev = mi.X
+												}
+												if ct, ok := ev.(*ssa.ChangeInterface); ok {
+													ev = ct.X
+												}
+												if isErrorType(ev.Type()) {
+													addVal(ev, d+1)
+												}
+											}
+										}
+									}
+								}
+							}
+						}
+					}
+					continue
+				}
+				if callee := call.Call.StaticCallee(); callee != nil && inModule(callee) && len(callee.Blocks) > 0 {
+					for k := range c.errSentinels(callee, depth+1, seen) {
+						out[k] = true
+					}
+					continue
+				}
+				out["?"+name] = true
+			default:
+				out["?"+shapeOf(l, 0)] = true
+			}
+		}
+	}
+	res := fn.Signature.Results()
+	if res.Len() == 0 || !isErrorType(res.At(res.Len()-1).Type()) {
+		return out
+	}
+	for _, b := range fn.Blocks {
+		if ret, ok := b.Instrs[len(b.Instrs)-1].(*ssa.Return); ok {
+			addVal(unspill(ret.Results[len(ret.Results)-1]), 0)
+		}
+	}
+	delete(seen, fn)
+	return out
+}
+
+// ruleUnpackErrorsDropped (C08, "undecodable input is dropped, the connection lives on"): every
+// error value a datagram unpacker can return is one that the read loop's classifier maps to
+// "continue" regardless of the connection's state.
+func ruleUnpackErrorsDropped(c *Ctx, r *Report) {
+	const rule = "unpack-errors-dropped"
+	cls := c.need(r, rule, "(*dtls.Conn).classifyReadLoopError")
+	if cls == nil {
+		return
+	}
+	actions := c.enumConsts("", "readLoopErrorAction")
+	// sentinels the classifier tests with errors.Is
+	tested := map[string]bool{}
+	for _, call := range findCalls(cls, nameIs("errors.Is")) {
+		if u, ok := call.Call.Args[1].(*ssa.UnOp); ok {
+			if g, ok := u.X.(*ssa.Global); ok {
+				tested[g.Name()] = true
+			}
+		}
+	}
+	continues := func(sentinel string) bool {
+		w := (&Walk{Fn: cls, Assume: func(v ssa.Value) (Val, bool) {
+			call, ok := v.(*ssa.Call)
+			if !ok {
+				return unknown, false
+			}
+			switch calleeName(&call.Call) {
+			case "errors.As":
+				return vBool(false), true
+			case "errors.Is":
+				if u, ok := call.Call.Args[1].(*ssa.UnOp); ok {
+					if g, ok := u.X.(*ssa.Global); ok {
+						return vBool(g.Name() == sentinel), true
+					}
+				}
+			}
+			return unknown, false
+		}}).FromEntry()
+		if len(w.Returns) == 0 {
+			return false
+		}
+		for _, ro := range w.Returns {
+			if k, ok := constInt(ro.Raw[0]); !ok || k != actions["readLoopContinue"] {
+				return false
+			}
+		}
+		return true
+	}
+	n := 0
+	for _, name := range []string{"pkg/protocol/recordlayer.UnpackDatagram", "pkg/protocol/recordlayer.ContentAwareUnpackDatagram", "pkg/protocol/recordlayer.UnpackDatagram13"} {
+		fn := c.need(r, rule, name)
+		if fn == nil {
+			continue
+		}
+		r.Sites += len(fn.Blocks)
+		set := c.errSentinels(fn, 0, map[*ssa.Function]bool{})
+		var names []string
+		for k := range set {
+			names = append(names, k)
+		}
+		sort.Strings(names)
+		for _, s := range names {
+			n++
+			key := short(fn) + ":" + s
+			if strings.HasPrefix(s, "?") {
+				r.Unk(rule, key, c.pos(fn.Pos()), "an error of unknown origin can be returned by the unpacker: "+s)
+				continue
+			}
+			r.Check(continues(s), rule, key, c.pos(fn.Pos()), "the read loop drops the datagram and continues", "the unpacker can return "+s+", which the read loop does not map to \"continue\": one undecodable datagram from anyone stops the read loop or is delivered as a read error (tested sentinels: "+strings.Join(sortedBoolKeys(tested), ",")+")")
+		}
+	}
+	r.Floor(rule, n, 2)
+}
+
+func sortedBoolKeys(m map[string]bool) []string {
+	var out []string
+	for k := range m {
+		out = append(out, k)
+	}
+	sort.Strings(out)
+	return out
+}
